@@ -684,6 +684,52 @@ def mon_c06_derivable(im, p):
     return {'fail': fails, 'nontrivial': True}
 
 
+def mon_c06_chars(im, p):
+    """characters outside the lexer's alphabet (oracle: the stdlib `re` classes, not the library): between tokens they make
+    the text underivable - a lexical error; inside a string literal or a %...% name they are part of the value, verbatim"""
+    ns = im.ns
+    fails = []
+    ascii_ok = set(' \t\r\n;()[]{}+-*/=<>!,.:|#%"\'')
+    for cp in p['cps']:
+        c = chr(cp)
+        if c in ascii_ok or re.match(r'\w', c):
+            continue
+        for src in ('1' + c + '+' + c + '2', 'x' + c + '= 1', c + '1 + 2', '[1,' + c + '2]', 'a' + c + 'b', 'f(' + c + ')', '1 + 2' + c):
+            try:
+                t = im.p.parse(src)
+                fails.append({'signature': 'alien-character-accepted', 'what': f'U+{cp:04X} between tokens: {src!r} is accepted as {sqimpl.tree(ns, t)[:80]}',
+                              'input': {'src': src, 'cp': cp}})
+                break
+            except ns.exc.ParserError:
+                pass
+            except Exception as e:
+                fails.append({'signature': 'not-parser-error:' + type(e).__name__, 'what': f'{src!r} raised {type(e).__name__}', 'input': {'src': src}})
+                break
+        if c in '\n\\':
+            continue
+        for q in ('"', "'"):
+            lit = 'a' + c + 'b' + c
+            try:
+                t = im.p.parse(q + lit + q)
+                out = sqimpl.tree(ns, t)
+                if hx(lit) not in out:
+                    fails.append({'signature': 'string-literal-altered', 'what': f'the literal {q}a U+{cp:04X} b U+{cp:04X}{q} parses to {out[:80]} '
+                                  f'(expected the value {hx(lit)})', 'input': {'src': q + lit + q, 'cp': cp}})
+                    break
+            except Exception:
+                pass
+        if c not in '%\n':
+            nm = '%a' + c + 'b%'
+            try:
+                t = im.p.parse(nm)
+                out = sqimpl.tree(ns, t)
+                if hx(nm) not in out and hx('a' + c + 'b') not in out:
+                    fails.append({'signature': 'name-lexeme-altered', 'what': f'the name %a U+{cp:04X} b% parses to {out[:80]}', 'input': {'src': nm, 'cp': cp}})
+            except Exception:
+                pass
+    return {'fail': fails[:5], 'nontrivial': True}
+
+
 # ------------------------------------------------------------------ C08
 def _round28(fr):
     """round a Fraction half-even to 28 significant digits, exactly"""
@@ -921,6 +967,26 @@ def mon_c10_reenter(im, p):
                 why = why or f'inner mapping has {k!r} = {inner.get(k)!r}, expected {v}'
         if why:
             fails.append({'signature': 'reentrant-eval-scopes', 'what': f'{sc["src"]!r} with sub = eval on the same parser with another mapping: {why}', 'input': sc})
+    return {'fail': fails, 'nontrivial': True}
+
+
+def mon_c10_seq(im, p):
+    """several evals on ONE parser and ONE names mapping: names resolve at the time and in the mapping of each call -
+    innermost scope, then the mapping as it is NOW, then the builtins - whatever an earlier evaluation resolved them to"""
+    fails = []
+    canon = lambda v: '[' + ', '.join(canon(x) for x in v) + ']' if isinstance(v, list) else str(v)
+    for sc in p['scenarios']:
+        names = dict(evalimpl.Host({}).fns)
+        parser = sqimpl.Impl(im.ns).p
+        for j, (src, exp) in enumerate(sc):
+            try:
+                out = canon(parser.eval(src, names, max_ops_evaluated=1000))
+            except Exception as e:
+                out = 'raised ' + type(e).__name__
+            if exp is not None and out != exp:
+                fails.append({'signature': 'name-resolution-across-evals', 'what': f'eval #{j} {src!r} after {[x[0] for x in sc[:j]]!r} on one mapping '
+                              f'gives {out}, expected {exp}', 'input': {'scenario': sc}})
+                break
     return {'fail': fails, 'nontrivial': True}
 
 
